@@ -53,10 +53,49 @@ ASSUME = [
 ]
 
 
+GEN_CFG = """SPECIFICATION GenSpec
+CONSTANTS
+  Quirks = {}
+  CQuirks = {}
+  Layouts = {}
+  Methods = {}
+  Xffs = {}
+  T0 = 100
+  Horizon = 0
+  Vals = {}
+  MaxPrep = 0
+  Export = "%s"
+  ExportN = 0
+  FullGrid = FALSE
+INVARIANTS %s
+CHECK_DEADLOCK FALSE
+"""
+
+
+def run_c20(prop, tier, seed, v, wd):
+    binp = build_harness(wd)
+    res = run_tlc(wd, "MC_Gen", GEN_CFG % ("none", "C20Model GenCases"), "gen", 4, 3000)
+    require_clean_mc(res, "MC_Gen")
+    cases = 0
+    for line in open(res["path"], errors="replace"):
+        if "GEN_CASES" in line:
+            cases = int(line.strip().rstrip(">").split(",")[-1])
+    extra = cli_extra(prop, tier, seed, v, wd, binp)
+    coverage = {"states": max(1, cases), "transitions": max(1, cases),
+                "traces_validated_against_impl": extra.get("executions", 0),
+                "samples": extra.get("samples", [])[:2] or ["no sample"],
+                "design_level_generator_choices_enumerated": cases,
+                "explanation": "states/transitions count the generator value assignments enumerated inside the invariant C20Model (layouts x methods x xFilesFactors x clock positions); the state graph itself has one state"}
+    coverage.update(extra.get("coverage", {}))
+    return v.finish("model_checking", coverage, ASSUME + ["generate is random: bound by trace validation only (every generated file is checked against the predicate GenerateOK by TLC)"])
+
+
 def run_cli(prop, tier, seed):
     v = Verdict(prop, tier, seed)
     wd = scratch("wv-%s-" % prop)
     try:
+        if prop == "C20":
+            return run_c20(prop, tier, seed, v, wd)
         return _run_cli(prop, tier, seed, v, wd)
     finally:
         shutil.rmtree(wd, ignore_errors=True)
@@ -116,6 +155,27 @@ def _run_cli(prop, tier, seed, v, wd):
     return v.finish("model_checking", coverage, ASSUME)
 
 
+def fault_grid(tier, seed, v, wd, binp):
+    res = run_tlc(wd, "MC_Gen", GEN_CFG % ("faults", "C16Table ExportFaults"), "faults", 2, 3000)
+    require_clean_mc(res, "fault table")
+    outj = os.path.join(wd, "faults.json")
+    rounds = {"quick": 6, "thorough": 60}[tier]
+    p = subprocess.run([binp, "cli-faults", res["path"], str(seed), str(rounds), outj], stdout=subprocess.PIPE, stderr=subprocess.PIPE, text=True)
+    if p.returncode != 0:
+        err = p.stderr
+        if "panic:" in err or "fatal error:" in err:
+            last = [l for l in err.splitlines() if l.startswith("CASE ")]
+            v.violation("command crashes the process: %s: %s" % (last[-1] if last else "?", err[err.find("panic:"):][:600]),
+                        {"kind": "cli-faults", "seed": seed, "case": last[-1] if last else None}, "cmd-panic:faults")
+            return {"executions": 0, "samples": [], "coverage": {}}
+        raise Broken("cli-faults failed: " + err[-2000:])
+    r = json.load(open(outj))
+    for viol in r["violations"]:
+        v.violation("%s: %s" % (viol["what"], viol["detail"][:600]), {"kind": "cli-faults", "seed": seed, "case": viol["line"]},
+                    viol.get("signature") or None)
+    return {"executions": r["executions"], "samples": r["samples"], "coverage": {"fault_grid_executions": r["executions"]}}
+
+
 TRACE_CLI_CFG = """SPECIFICATION TSpec
 CONSTANTS
   Quirks = {}
@@ -159,7 +219,9 @@ def drive_cases(binp, wd, prop, seed, first, count, tag):
 
 def cli_extra(prop, tier, seed, v, wd, binp):
     """code -> spec: seeded driver on large layouts / glob mode, validated by TLC (Trace_CLI)"""
-    if prop not in ("C08", "C09", "C10", "C11", "C18"):
+    if prop == "C16":
+        return fault_grid(tier, seed, v, wd, binp)
+    if prop not in ("C08", "C09", "C10", "C11", "C18", "C20"):
         return {}
     total = DRIVE_CASES[tier]
     nparts = NCPU
